@@ -1,6 +1,8 @@
 import BigtoolsModel.Driver.Util
 import BigtoolsModel.WfFile
 import BigtoolsModel.FileRTBed
+import BigtoolsModel.FileOf
+import BigtoolsModel.FileOfBed
 /-! Driver commands that read a real file: `readwig` / `readbed` (the byte-level READER model answering the
     case's queries on the bytes the implementation wrote — or any foreign file) and `wfwig` / `wfbed` (the
     Lean-defined well-formedness certificate). Uncompressed blocks are read in place; for compressed files the
@@ -152,5 +154,53 @@ def readBedFile (file : ByteArray) (c : Case) : List String :=
               | .ok vs => s!"A {qi} ok" ++ String.join (vs.map fun v => s!" {v.1}:{v.2.1}:{hex v.2.2}")
         | _ => s!"A {qi} skip"
       ["OPEN ok", chromLine, zoomLine] ++ answers
+
+end Drv
+
+namespace Drv
+open BBI
+
+def leU (bs : List Nat) (off n : Nat) : Nat := ((bs.drop off).take n).foldr (fun b acc => acc * 256 + b) 0
+
+def firstDiff (a b : List Nat) : Nat :=
+  let rec go : List Nat → List Nat → Nat → Nat
+    | x :: xs, y :: ys, i => if x == y then go xs ys (i + 1) else i
+    | _, _, i => i
+  go a b 0
+
+/-- `fileof`: do the REAL bytes of an uncompressed little-endian file equal the theorem-carrying model file
+    (`BBI.fileOf` / `BBI.bedFileOf`) built from the input, with the areas the model leaves arbitrary (zoom directory,
+    autoSql, summary, data count; everything after the main index) taken from the real file? If so,
+    `wig_model_roundtrip` / `bed_model_roundtrip` are statements about this very file. -/
+def fileOfCase (file : ByteArray) (c : Case) : List String :=
+  let real := file.toList.map (·.toNat)
+  let ips := nat (c.opt "ips" "1024")
+  let b := nat (c.opt "bs" "256")
+  let zc := leU real 6 2
+  let dof := leU real 16 8
+  let aso := leU real 36 8
+  let so := leU real 44 8
+  let ubs := leU real 52 4
+  let fc := leU real 32 2
+  let dfc := leU real 34 2
+  let mid := (real.drop 64).take (dof + 8 - 64)
+  let sizes := (c.records "CHROM").map fun l => (l.getD 1 "", nat (l.getD 2 "0"))
+  let sizeOf (n : String) : Nat := ((sizes.find? (·.1 == n)).map (·.2)).getD 0
+  let bytes : List Nat → List Nat :=
+    if c.args.getD 0 "wig" == "bed" then
+      let recs : List (String × CD.Entry) := (c.records "E").map fun l =>
+        (l.getD 1 "", ⟨nat (l.getD 2 ""), nat (l.getD 3 ""), unhex (l.getD 4 "-")⟩)
+      let runs := groupRuns recs
+      let cs : List ChromBedIn := runs.map fun (n, es) => ⟨nameBytes n, sizeOf n, es⟩
+      fun tail => (bedFileOf ⟨ips, b, zc, dof, fc, dfc, aso, so, ubs, mid, tail⟩ cs).bytes
+    else
+      let recs : List (String × Value) := (c.records "V").map fun l =>
+        (l.getD 1 "", ⟨nat (l.getD 2 ""), nat (l.getD 3 ""), hexNat (l.getD 4 "0")⟩)
+      let runs := groupRuns recs
+      let cs : List ChromIn := runs.map fun (n, vs) => ⟨nameBytes n, sizeOf n, vs⟩
+      fun tail => (fileOf ⟨ips, b, zc, dof, so, ubs, mid, tail⟩ cs).bytes
+  let core := bytes []
+  let model := bytes (real.drop core.length)
+  if model == real then ["FILEOF eq"] else [s!"FILEOF differs at {firstDiff model real} (model {model.length} bytes, real {real.length})"]
 
 end Drv
